@@ -166,6 +166,8 @@ OCT [0-7]
 
 <STRING>"%(" {
   yylval->f->flush_str ();
+  // The previous embedded expression, if any, left this set.
+  yylval->f->in_string = false;
   BEGIN STRING_EMBEDDED;
 }
 
